@@ -13,7 +13,7 @@ RULE = ("histories (<=30 ops) of ANcreate/ANcreatef of the four annotation types
         "AN, and DFANgetlablen/getlabel/getdesclen/getdesc on this file and on a second file that only the single-file "
         "interface writes (alternating between the two files without DFANclear; DFANclear only after the multi-file "
         "interface changed the file); after every mutator and after the final reopen: ANfileinfo, ANselect/ANget_tagref enumeration of each "
-        "type, ANnumann/ANannlist per target, ANannlen/ANreadann of every annotation, ANid2tagref<->ANtagref2id; dict "
+        "type, ANnumann/ANannlist per target, ANannlen/ANreadann of every annotation (into a large buffer, into one of exactly the documented minimum size and truncated to half), ANid2tagref<->ANtagref2id; dict "
         "model, listings compared as multisets. Non-trivial = >=2 annotations of one type on one object, a rewrite "
         "with different length, or reopen with >=5 annotations.")
 BUDGET = {"quick": {"shards": 8, "cases": 200}, "thorough": {"shards": 16, "cases": 2500}}
@@ -119,6 +119,18 @@ def run_case(case):
         # the "readall" role is expanded at check time into reads of every known annotation; to keep the
         # program static we emit reads for every slot created so far instead
         slot_meta = []   # (type, target index, variable names)
+        cur_txt = {}     # slot -> (type, text) as of this point of the program
+
+        def read_exact(q):
+            """read into a buffer of exactly the documented minimum size: the text length for descriptions,
+            one more (terminator) for labels; and a second time truncated to about half of it"""
+            t_, txt_ = cur_txt[q]
+            need = len(txt_) + (1 if t_ in (DL, FL) else 0)
+            S("readx", p.call("i", "hx_an_read", V("an"), V("at%d" % q), V("ar%d" % q), Out(need), need), q, need)
+            if len(txt_) >= 4:
+                half = len(txt_) // 2
+                S("readx", p.call("i", "hx_an_read", V("an"), V("at%d" % q), V("ar%d" % q), Out(half), half), q, half)
+
         has = set()
         has2 = set()
         path2 = os.path.join(d, "other.hdf")
@@ -140,6 +152,7 @@ def run_case(case):
                 else:
                     S("create", p.call("i", "ANcreatef", V("an"), t, bind="n%d" % s), s, t, None)
                 S("write", p.call("i", "ANwriteann", V("n%d" % s), txt if txt else b"", ln), s, txt)
+                cur_txt[s] = (t, txt)
                 S("idtr", p.call("i", "ANid2tagref", V("n%d" % s), Out(2, bind="at%d" % s), Out(2, bind="ar%d" % s)), s)
                 S("ret0", p.call("i", "ANendaccess", V("n%d" % s)), "ANendaccess")
                 slot_meta.append((t, tgt, True))
@@ -149,6 +162,7 @@ def run_case(case):
                 for q in observe_slots[-3:]:
                     if slot_meta[q][2]:
                         S("read", p.call("i", "hx_an_read", V("an"), V("at%d" % q), V("ar%d" % q), Out(5200), 5200), q)
+                read_exact(s)
             elif k == "rewrite":
                 ensure_an()
                 an_dirty = True
@@ -159,6 +173,7 @@ def run_case(case):
                 txt = text_for(seed, ln, label)
                 S("rewrite", p.call("i", "hx_an_rewrite", V("an"), V("at%d" % s), V("ar%d" % s), txt if txt else b"",
                                     ln), s, txt)
+                cur_txt[s] = (slot_meta[s][0], txt)
                 for q in range(nslots):
                     if slot_meta[q][2]:
                         S("read", p.call("i", "hx_an_read", V("an"), V("at%d" % q), V("ar%d" % q), Out(5200), 5200), q)
@@ -246,6 +261,7 @@ def run_case(case):
         for q in range(nslots):
             if slot_meta[q][2]:
                 S("read", p.call("i", "hx_an_read", V("an"), V("at%d" % q), V("ar%d" % q), Out(5200), 5200), q)
+                read_exact(q)
                 S("tr2id", p.call("i", "ANtagref2id", V("an"), V("at%d" % q), V("ar%d" % q), bind="tmp"), q)
                 S("idtr2", p.call("i", "ANid2tagref", V("tmp"), Out(2), Out(2)), q)
         close_an()
@@ -352,6 +368,22 @@ def run_case(case):
                     if got != txt:
                         raise Fail("ANreadann text differs", ident=list(slots[q]), expected=txt[:40].hex(),
                                    observed=got[:40].hex())
+                elif role == "readx":
+                    q, maxlen = a
+                    ent = model[slots[q]]
+                    txt = ent["text"]
+                    islabel = ent["type"] in (DL, FL)
+                    if r.ret != len(txt):
+                        raise Fail("ANannlen differs from text written", ident=list(slots[q]), expected=len(txt),
+                                   observed=r.ret)
+                    # a label is returned NUL-terminated within maxlen, a description fills up to maxlen bytes
+                    keep = min(len(txt), maxlen - 1 if islabel else maxlen)
+                    got = r.bufs[0]
+                    if got[:keep] != txt[:keep] or (islabel and got[keep:keep + 1] != b"\0"):
+                        raise Fail("ANreadann into a buffer of %d bytes (text %d bytes) returned wrong bytes" % (
+                            maxlen, len(txt)), ident=list(slots[q]), type=ent["type"], expected=txt[:keep][-8:].hex(),
+                            observed=got[:keep + 1][-9:].hex())
+                    labels.add("exact_size_read")
                 elif role == "all":
                     t = a[0]
                     n = r.ret
